@@ -246,7 +246,7 @@ func init() {
 	core.Register(&core.Rule{
 		Name: "R-EPOCH",
 		Doc: "The visited epoch of a generation-stamped table (an integer field E compared with and stored into elements of a slice field V by a gate function): (a) every increment of E is followed, before any call, by a test of E against 0 whose taken branch clears V (wrap handling: the 2^k-th search must not see stale marks; necessary for C13); (b) no increment of E sits in a loop that also calls the gated recursion (a reset per start position turns the states x n visited bound into states x n^2; necessary for C05).",
-		Min: 1, NeedSSA: true,
+		Min: 2, NeedSSA: true,
 		Run: func(p *core.Prog) *core.RuleResult {
 			res := &core.RuleResult{}
 			// epoch fields: integer fields stored into elements of a slice field inside a gate
